@@ -1,6 +1,6 @@
 PID = "C14"
 WORKER = "w_c14"
-HEADER = "From Coq Require Import List ZArith QArith Qcanon.\nFrom Dimod Require Import Base.Util Model.Poly Model.Samples Model.SSet Model.ChkC14.\nImport ListNotations."
+HEADER = "From Coq Require Import List ZArith QArith Qcanon.\nFrom Dimod Require Import Base.Util Model.Poly Model.Samples Model.SSet Model.Alias Model.ChkC14.\nImport ListNotations."
 CHECK_FN = "check"
 N_QUICK = 1600
 N_THOROUGH = 40000
@@ -16,10 +16,21 @@ RULE = ("random sample sets (SPIN/BINARY/INTEGER/DISCRETE/REAL; sample dtypes in
         "extra vectors), labels, vartype and info after each operation are compared with the Coq model applied to the previous observed "
         "state (sorted slices and first relationally); deferred cases capture relabel/change_vartype on a concurrent.futures.Future-backed "
         "sample set before or after the result is set; as_samples cases feed one assignment table in up to 15 forms x 2 label types; "
+        "alias cases (Model/Alias.v) put the future's own result object, 1-2 SampleSet.from_future on the same future (also with a caller-given result_hook, "
+        "and a future-like object without done()) and every object returned by relabel_variables / change_vartype (in place or not) into one history, with "
+        "set_result and reads at random points; after every event every resolved object is dumped (content + which objects share its record) and compared with the "
+        "heap model, plus two oracles on the observations alone (relabel-only histories never change another object; inplace=False on a resolved receiver returns an "
+        "object sharing no record and leaves everything else as it was); seq cases also read samples(n, sorted_by) / iter() and data(sorted_by, reverse, name, "
+        "sample_dict_cast, index=True), concatenate sample sets with DIFFERENT data vectors with/without defaults= (list or generator), build with aggregate_samples=True, "
+        "pass the vartype as str / Vartype / set, and use range(n) labels; "
         "non-trivial = an operation returned a non-empty sample set; distinct by case JSON")
-TRUSTED = ["translators/dtype_narrowing.py (fail-closed) -> Gen/Gen_Narrow.v: the candidate list of _sample_array's dtype narrowing", "model: coq/theories/Model/{Samples,SSet,Narrow,ChkC14}.v (hand-written mirror of dimod/sampleset.py; aggregate is mirrored in its code shape (np.unique contract proved for the mirrored definition, argsort un-sorting, accumulation loop) and proved equal to the specification)",
+TRUSTED = ["translators/dtype_narrowing.py (fail-closed) -> Gen/Gen_Narrow.v: the candidate list of _sample_array's dtype narrowing",
+           "translators/sampleset_hooks.py (fail-closed) -> Gen/Gen_Hooks.v: the statement shapes of SampleSet.from_future / resolve / copy / relabel_variables and the head of change_vartype are matched exactly; the inplace= constants of the three deferred hooks are extracted and proved equal to the variants Model/Alias.v implements (the model itself is hand-written, not parameterised by them)",
+           "model: coq/theories/Model/Alias.v (heap of sample-set objects over shared record cells; hand-written mirror of from_future / resolve / done / relabel_variables / change_vartype / copy incl. the two dtype-widening cases that replace the record)", "model: coq/theories/Model/{Samples,SSet,Narrow,ChkC14}.v (hand-written mirror of dimod/sampleset.py; aggregate is mirrored in its code shape (np.unique contract proved for the mirrored definition, argsort un-sorting, accumulation loop) and proved equal to the specification)",
            "NumPy structured-array indexing, np.unique, np.argsort, recfunctions.stack_arrays/append_fields behave as documented",
            "float arithmetic of the implementation is exact on the generated dyadic data (not verified)"]
 ASSUMPTIONS = ["IEEE-754 arithmetic is exact on the small dyadic energies, offsets and tolerances generated",
                "np.argsort may return any order of tied keys: the order it returns for the same key vector is observed, checked to be an admissible argsort, and the implementation's slice / first must equal the code shape record[order[selector]] / record[order[0]] exactly (plus the relational check)"]
-PARTIAL = ["C14_deferred_inplace_change_vartype_receiver_refuted is the open finding C14-deferred-inplace stated on the faithful model: change_vartype(inplace=True) on a pending sample set returns a new wrapper and the receiver, resolved on its own, is unconverted; every other receiver/returned-handle law of the deferred state machine is proved"]
+PARTIAL = ["the heap theorems (C14_alias_*) cover histories of relabel_variables calls; for histories containing change_vartype on future-backed sets the heap model is only compared with the implementation (the code lets an in-place conversion write into the future's own result record, so no frame property holds there - reported)",
+           "not reached: from_samples_bqm / from_samples_cqm (C08), serialization (C11), to_pandas_dataframe, wait_id; mappings mutated by the caller between a deferred call and resolution",
+           "C14_deferred_inplace_change_vartype_receiver_refuted is the open finding C14-deferred-inplace stated on the faithful model: change_vartype(inplace=True) on a pending sample set returns a new wrapper and the receiver, resolved on its own, is unconverted; every other receiver/returned-handle law of the deferred state machine is proved"]
